@@ -311,6 +311,43 @@ def defuse_program(rng, pid):
             "init": [], "blocks": blocks, "fn": {"name": "f", "in": [], "out": [r]}, "outs": [r]}
 
 
+def nested_branch_program(rng, pid):
+    """directed family (C18 assertion crawler): NESTED branches (depth 2 or 3) on different variables in which only the
+    innermost arm contains a definition; the blocks that depend directly on the outer branches hold nothing but their
+    guards; an assertion after the join reads the variable defined in the innermost arm (its outcome depends, through the
+    chain of control dependences, on every branching variable)."""
+    vs = [1, 2, 3]
+    rng.shuffle(vs)
+    x = vs[0]
+    depth = rng.choice([2, 2, 3])
+    conds = [{"e": {"k": -rng.randint(0, 1), "t": [[rng.choice([1, -1]), vs[1 + (i % 2)]]]}, "r": rng.choice(["le", "lt"])} for i in range(depth)]
+    if depth == 3:      # the third level branches on the asserted variable's own old value or on the first variable again
+        conds[2] = {"e": {"k": -rng.randint(0, 1), "t": [[1, rng.choice([vs[1], vs[2]])]]}, "r": "le"}
+    vars_ = [{"n": n, "t": "int"} for n in ("x", "y", "z")]
+    blocks = []
+
+    def blk(st):
+        blocks.append({"succ": [], "stmts": st})
+        return len(blocks)
+    pre = [{"op": "assign", "x": x, "e": {"k": rng.randint(0, 1), "t": []}}] if rng.random() < 0.7 else []
+    cur = blk(pre)
+    falses = []
+    for i in range(depth):
+        t = blk([{"op": "assume", "c": conds[i]}])
+        f = blk([{"op": "assume", "c": negate(conds[i])}])
+        blocks[cur - 1]["succ"] = [t, f]
+        falses.append(f)
+        cur = t
+    blocks[cur - 1]["stmts"].append({"op": "assign", "x": x, "e": {"k": rng.choice([-1, 2]), "t": []}})
+    j = blk([{"op": "assert", "c": {"e": {"k": 0, "t": [[-1, x]]}, "r": "le"}, "id": 1}] if rng.random() < 0.7 else
+            [{"op": "assert", "c": {"e": {"k": -1, "t": [[1, x]]}, "r": rng.choice(["le", "lt", "ne"])}, "id": 1}])
+    blocks[cur - 1]["succ"] = [j]
+    for f in falses:
+        blocks[f - 1]["succ"] = [j]
+    return {"id": pid, "shape": "nestedbranch:%d" % depth, "vars": vars_, "kinds": ["int"] * 3, "nv": 3, "entry": 1, "exit": j,
+            "blocks": blocks, "init": []}
+
+
 def backward_pattern_program(rng, pid):
     """directed family (C11, C02 forward+backward): v is defined by ONE statement of each kind the backward transformers
     handle (select with the interesting value in the then- or the else-branch, x := k - x, x := y - x, +, -, * and / by small
